@@ -24,6 +24,9 @@ pub enum TreeOp {
     Link { path: String, target: String, absolute: bool },
     /// a named pipe (nobody ever writes to it)
     Fifo(String),
+    /// a directory with one file on ANOTHER file system (the root disk; the workspace is tmpfs), and a
+    /// symbolic link to it at `path`
+    XdevDir { path: String, seed: u64 },
 }
 
 #[derive(Clone, Debug, Serialize, Deserialize, PartialEq)]
@@ -65,6 +68,17 @@ fn build_tree(root: &Path, ops: &[TreeOp]) {
                     let _ = std::fs::create_dir_all(d);
                 }
                 let _ = std::fs::write(f, file_content(*size, *seed));
+            }
+            TreeOp::XdevDir { path, seed } => {
+                let ext = PathBuf::from(format!("/var/tmp/scsim-xdev-{}-{}", std::process::id(), seed % 100_000));
+                let _ = std::fs::create_dir_all(ext.join("sub"));
+                let _ = std::fs::write(ext.join("other-fs.c"), file_content(100, *seed));
+                let _ = std::fs::write(ext.join("sub/deep.c"), file_content(2000, seed ^ 1));
+                let f = root.join(path);
+                if let Some(d) = f.parent() {
+                    let _ = std::fs::create_dir_all(d);
+                }
+                let _ = std::os::unix::fs::symlink(&ext, f);
             }
             TreeOp::Fifo(p) => {
                 let f = root.join(p);
@@ -305,6 +319,11 @@ pub fn run_recorder(t: &RecorderTrace, scratch: &Scratch) -> RecOutcome {
     });
     let products_expect = expect_for(&paths, &lstrip, &algs);
     std::env::set_current_dir("/").ok();
+    for op in &t.tree {
+        if let TreeOp::XdevDir { seed, .. } = op {
+            let _ = std::fs::remove_dir_all(format!("/var/tmp/scsim-xdev-{}-{}", std::process::id(), seed % 100_000));
+        }
+    }
     match r {
         Ok((Ok(x), stats)) => RecOutcome { materials_expect, products_expect, result: Ok(x), err_class: String::new(), panic: None, read_stats: stats, stream_result: None },
         Ok((Err((c, m)), stats)) => RecOutcome { materials_expect, products_expect, result: Err(m), err_class: c, panic: None, read_stats: stats, stream_result: None },
@@ -619,6 +638,12 @@ pub fn gen_trace(seed: u64, tier: Tier) -> RecorderTrace {
         tree.push(TreeOp::Link { path: lp.clone(), target: t, absolute });
         links.push(lp);
     }
+    // part of the tree lives on another file system
+    if r.chance(1, 20) {
+        let d = r.pick(&dirs).clone();
+        tree.push(TreeOp::XdevDir { path: format!("{}/vendor", d), seed: r.next() });
+        labels.push("XDEV-DIR".into());
+    }
     // a named pipe in the tree, and a link to it: neither is a regular file, both must be left alone
     if r.chance(1, 25) {
         let d = r.pick(&dirs).clone();
@@ -685,6 +710,7 @@ pub fn gen_trace(seed: u64, tier: Tier) -> RecorderTrace {
             match r.below(4) {
                 0 => ops.push(FsOp::Write { path: format!("{}/created-{}", r.pick(&dirs), r.below(3)), content: gen::text(&mut r) }),
                 1 => ops.push(FsOp::Append { path: r.pick(&files).clone(), content: "appended".into() }),
+                2 if r.chance(1, 2) => ops.push(FsOp::TamperKeepStat { path: r.pick(&files).clone() }),
                 2 => ops.push(FsOp::Remove { path: r.pick(&files).clone() }),
                 _ => ops.push(FsOp::Mkdir { path: format!("{}/newdir", r.pick(&dirs)) }),
             }
